@@ -93,4 +93,18 @@ CHECKS = {
             {"harness": "c03_syncrecv", "flavour": "asan", "runs": {"quick": 16000, "thorough": 1500000}, "wall": {"quick": 45, "thorough": 1800}},
         ],
     },
+    "C04": {
+        "level": "exploration",
+        "rule": ("each run = 1-8 caller threads issuing 1-3 connectSync / connectSyncCancellable calls (timeouts 1 ms..2 s drawn around the target's SYN-ACK or TLS-handshake delay of "
+                 "0.1..400 ms) against accepting, refusing, black-holed, unresolvable, slow-resolving, resetting, TLS-ok, TLS-stalling, TLS-garbage and plaintext-instead-of-TLS targets, "
+                 "cancellation tokens fired at drawn instants, engine-level connect/handshake timers of 150/200 ms or 30 s, stop() racing the callers in a quarter of the runs; "
+                 "non-trivial = at least one context switch; distinct = distinct (interleaving hash, abstract state hash)"),
+        "real": ["iora::network::Transport::connectSync/connectSyncCancellable + Transport::Impl handlers", "TcpEngine (connect path, timers, TLS client handshake)", "TimerService", "OpenSSL 3"],
+        "stub": COMMON_STUB + ["kernel TCP sockets, epoll, eventfd, timerfd, getaddrinfo (simrt/net.cpp)", "remote peers (scripted; OpenSSL server for the TLS-ok target)"],
+        "assumptions": ["return-time bound = timeout + simulator-injected stall + 60 ms (+2.4 s for host names: the engine's DNS guard, +110 ms for cancellable calls: 100 ms polling)",
+                        "the engine's shutdown close reason (Unknown, 'shutdown') counts as the definite 'shutting down' error"],
+        "jobs": [
+            {"harness": "c04_connectsync", "flavour": "asan", "runs": {"quick": 9000, "thorough": 900000}, "wall": {"quick": 45, "thorough": 1800}},
+        ],
+    },
 }
